@@ -14,6 +14,7 @@ import (
 	"verifharness/common"
 
 	"github.com/gogpu/naga"
+	"github.com/gogpu/naga/dxil"
 	"github.com/gogpu/naga/glsl"
 	"github.com/gogpu/naga/hlsl"
 	"github.com/gogpu/naga/ir"
@@ -137,6 +138,14 @@ func doCompile(j *job, res map[string]any) {
 			}
 		}
 		res["glsl"] = outs
+	}
+	if j.Wants("dxil") {
+		b, err := dxil.Compile(mod, dxil.DefaultOptions())
+		if err != nil {
+			res["dxil_err"] = err.Error()
+		} else {
+			res["dxil"] = hex.EncodeToString(b)
+		}
 	}
 	if j.Wants("ir_after") {
 		res["ir_after"] = Dump(mod)
